@@ -112,7 +112,7 @@ def run_unit(unit, mode=None, canary=None, rlimit=30, threads=8):
     t0 = time.time()
     try:
         gen = unitgen.generate(unit, mode=mode, canary=canary)
-    except LostAnchor as e:
+    except (LostAnchor, unitgen.TemplateError) as e:
         res.status = 'undecided'
         res.reason = 'lost anchor: %s' % e
         res.wall = time.time() - t0
